@@ -416,6 +416,15 @@ func (g *gen) rangeHeader(q *reqSpec, size int) {
 	case x < 76:
 		a := size + 1 + g.r.IntN(10)
 		v = fmt.Sprintf("bytes=%d-%d", a, a+g.r.IntN(10))
+	case x < 84:
+		// positions at the edges of the integer types, against a start inside (or just past) the blob
+		edges := []string{"9223372036854775807", "9223372036854775806", "9223372036854775808", "4611686018427387904", "2147483647", "2147483648", "4294967295", "4294967296", "18446744073709551615"}
+		e := edges[g.r.IntN(len(edges))]
+		if g.r.IntN(4) == 0 {
+			v = fmt.Sprintf("bytes=%s-%s", e, edges[g.r.IntN(len(edges))])
+		} else {
+			v = fmt.Sprintf("bytes=%d-%s", g.r.IntN(size+2), e)
+		}
 	default:
 		v = oddRanges[g.r.IntN(len(oddRanges))]
 	}
